@@ -85,6 +85,33 @@ def final (s : State) : List Op → State
   | [] => s
   | op :: ops => final (step s op).1 ops
 
+/-! ### `stop_all_streams`
+
+The code walks over a *snapshot* of the table (`list(self._streams.items())`); failing a requester
+runs application code (`on_error`), which may issue a new request at once: a stream is allocated and
+registered while the walk is still going on (`retry id = true`). Only the walked id is finished. -/
+
+/-- One walked id: the owner's reaction (a new stream, or nothing), then `finish_stream(id)`.
+Returns the new state and the id registered meanwhile (if any). -/
+def sweepOne (retry : Nat → Bool) (s : State) (id : Nat) : State × List Nat :=
+  let r : State × List Nat :=
+    if retry id then
+      match step s .allocate with
+      | (s', .allocated n) => (s', [n])
+      | (s', _) => (s', [])
+    else (s, [])
+  ((step r.1 (.finish id)).1, r.2)
+
+def sweepLoop (retry : Nat → Bool) : State → List Nat → State × List Nat
+  | s, [] => (s, [])
+  | s, id :: rest =>
+    let r := sweepOne retry s id
+    let t := sweepLoop retry r.1 rest
+    (t.1, r.2 ++ t.2)
+
+/-- `stop_all_streams()`: final table and the ids registered while it ran. -/
+def sweep (retry : Nat → Bool) (s : State) : State × List Nat := sweepLoop retry s s.active
+
 /-- `assert_stream_id_available` -/
 def available (s : State) (id : Nat) : Bool := !s.isActive id
 
